@@ -308,7 +308,7 @@ func childRun(raw json.RawMessage) (interface{}, error) {
 	return out, nil
 }
 
-var raceFuncRe = regexp.MustCompile(`github\.com/fabiolb/fabio/([a-z/]+)\.(\(\*?[A-Za-z]+\)\.)?([A-Za-z]+)\(`)
+var raceFuncRe = regexp.MustCompile(`github\.com/fabiolb/fabio/([a-z/]+)\.((?:\(\*?[A-Za-z]+\)|[A-Za-z]+)\.)?([A-Za-z]+)\(`)
 
 // stressRun spawns the child and folds its fate into the case output.
 func stressRun(kinds ...int) func(json.RawMessage) (interface{}, error) {
@@ -380,6 +380,16 @@ func stressRun(kinds ...int) func(json.RawMessage) (interface{}, error) {
 			}
 			out["race_funcs"] = funcs
 			out["race_reports"] = strings.Count(stderr, "WARNING: DATA RACE")
+			if i := strings.Index(stderr, "WARNING: DATA RACE"); i >= 0 {
+				rep := stderr[i:]
+				if j := strings.Index(rep, "=================="); j > 0 {
+					rep = rep[:j]
+				}
+				if len(rep) > 3000 {
+					rep = rep[:3000]
+				}
+				out["first_race_report"] = rep
+			}
 		}
 		return out, nil
 	}
